@@ -59,8 +59,8 @@ class Gen:
     def monitor(self, slot, shape, w=0, s1=0, s2=1):
         return self.op(OP_MONITOR, slot=slot, shape=shape, obj=w, s1=s1, s2=s2)
 
-    def call(self, obj, fn, a1, a2=0, in_catch=False, unwinding=False):
-        return self.op(OP_CALL, obj=obj, fn=fn, a1=a1, a2=a2, k1=2 if unwinding else (1 if in_catch else 0))
+    def call(self, obj, fn, a1, a2=0, in_catch=False, unwinding=False, other_thread=False):
+        return self.op(OP_CALL, obj=obj, fn=fn, a1=a1, a2=a2, k1=3 if other_thread else (2 if unwinding else (1 if in_catch else 0)))
 
     def release(self, slot):
         return self.op(OP_RELEASE, slot=slot)
@@ -285,7 +285,8 @@ def c01_alphabet(g, slots, objs_mv=True):
     variants.append(dict(sh=dict(fn=F1, mk1='ANY', seqar=2), lo=1, hi=2))
     variants.append(dict(sh=dict(fn=F1, mk1='ANY', tform='FORBID', nwith=1, vform=True), lo=0, hi=0, wmode=(2, 0, 0)))   # NAMED_FORBID_CALL_V(m, f(_), .WITH(_1 != 2))
     variants.append(dict(sh=dict(fn=F1, mk1='EQ', tform='ALLOW', nse=1, vform=True), lo=0, hi=INF))
-    variants.append(dict(sh=dict(fn=CF1, mk1='ANY', nse=1), lo=1, hi=2))   # the const overload f(int) const: calls through a const reference only
+    variants.append(dict(sh=dict(fn=CF1, mk1='ANY', nse=1), lo=1, hi=2))
+    variants.append(dict(sh=dict(fn=F1, mk1='ANYM'), lo=1, hi=1))   # NAMED_REQUIRE_CALL(m, f(ANY(int))): a macro inside the expectation text   # the const overload f(int) const: calls through a const reference only
     for slot in slots:
         for v in variants:
             A.append(g.create(slot, g.shape(**v['sh']), obj=0, k1=1, lo=v['lo'], hi=v['hi'], s1=0, wmode=v.get('wmode', (0, 0, 0))))
@@ -524,6 +525,7 @@ def c07_alphabet(g, slots):
         A.append(g.create(slot, g.shape(fn=F1, mk1='EQ', tform='RT', nse=1), obj=0, k1=2, lo=1, hi=1))
         A.append(g.create(slot, g.shape(fn=F2, mk1='EQ', mk2='ANY', tform='FORBID'), obj=0, k1=1))
         A.append(g.create(slot, g.shape(fn=F1, mk1='ANY', tform='FORBID', nwith=1), obj=0, wmode=(2, 0, 0)))            # FORBID_CALL(...).WITH(_1 != 2)
+        A.append(g.create(slot, g.shape(fn=F1, mk1='ANYM', tform='FORBID'), obj=0))                                      # NAMED_FORBID_CALL(m, f(ANY(int))): a macro inside the text of the report
         A.append(g.create(slot, g.shape(fn=F1, mk1='ANY', tform='FORBID', nwith=2), obj=0, wmode=(3, 2, 0)))            # FORBID_CALL(...).WITH(_1 >= 1).WITH(_1 != 2): every condition counts
         A.append(g.create(slot, g.shape(mock='MV', fn=F1, mk1='ANY', tform='FORBID'), obj=2))                            # on a movable mock: the stack of expectations follows the object
         A.append(g.create(slot, g.shape(mock='MV', fn=F1, mk1='EQ', tform='ALLOW', nse=1), obj=2, k1=1))
@@ -710,10 +712,11 @@ def plans_C16(g, tier):
         A.append(g.create(slot, g.shape(fn=F1, mk1='EQ', tform='ALLOW', nse=1), obj=0, k1=0, semode=(2, 0, 0)))             # side effect calls g(): OK reports in acceptance order
         A.append(g.release(slot))
     A += [g.call(0, F1, a) for a in (0, 1, 2)] + [g.call(0, G1, 1), g.call(0, Z0, 0), g.call(0, F1, 2, in_catch=True), g.call(0, F1, 1, in_catch=True)]
+    A += [g.call(0, F1, 1, other_thread=True)]   # reporters are process-wide: a call made on another thread reports to the installed ones
     A += [g.op(OP_SET_REPORTER, k1=1, k2=1), g.op(OP_SET_REPORTER, k1=2, k2=0), g.op(OP_SET_REPORTER, k1=0, k2=1), g.op(OP_ARM_OK, k1=2), g.op(OP_ARM_OK, k1=9)]
     if tier == 'quick':
-        return [dict(name='ok3', mask=M_C16, du=2, dm=6, alphabet=A)]
-    return [dict(name='ok3', mask=M_C16, du=3, dm=8, alphabet=A)]
+        return [dict(name='ok3', mask=M_C16, du=2, dm=5, alphabet=A)]
+    return [dict(name='ok3', mask=M_C16, du=3, dm=7, alphabet=A)]
 
 
 # ---------------------------------------------------------------- C17
